@@ -670,7 +670,9 @@ def kernel_cross_check(ctx, report, status):
         status.problem("translator", f"pyarr self-test: {what}")
     for what in pyarr_selftest.python_problems(ctx.seed):  # accepted programs: CPython vs the evaluator, aliasing included
         status.problem("translator", f"pyarr self-test: {what}")
-    report.translator_checks += len(pyarr_selftest.REFUSED) + len(pyarr_selftest.ACCEPTED)
+    for what in pyarr_selftest.block_problems(ctx.seed):  # accepted programs WITH a block loop (private / aliased output)
+        status.problem("translator", f"pyarr self-test: {what}")
+    report.translator_checks += len(pyarr_selftest.REFUSED) + len(pyarr_selftest.ACCEPTED) + len(pyarr_selftest.BLOCK_PROGRAMS)
     rng = random.Random(4242 + ctx.seed)
     shapes = KERNEL_SHAPES + [None] * ctx.n(24, 200)
     for shape in shapes:
